@@ -141,9 +141,18 @@ pub fn run_case(c: &Case, out: &mut String) {
         1 => BackoffStrategy::constant(),
         _ => BackoffStrategy::exponential(c.factor),
     };
-    s = s.with_max_attempts(c.max_attempts).with_step(c.step);
-    if let Some(m) = c.max {
-        s = s.with_max_duration(m);
+    // the three setters in one of their six orders (a function of the case, so that a replay agrees)
+    let order = (c.factor as u128 + c.step.as_nanos() + c.max_attempts as u128 + c.take as u128) % 6;
+    let perm: [u8; 3] = [[0, 1, 2], [0, 2, 1], [1, 0, 2], [1, 2, 0], [2, 0, 1], [2, 1, 0]][order as usize];
+    for which in perm {
+        s = match which {
+            0 => s.with_max_attempts(c.max_attempts),
+            1 => s.with_step(c.step),
+            _ => match c.max {
+                Some(m) => s.with_max_duration(m),
+                None => s,
+            },
+        };
     }
     let mut it = s.into_iter();
     let mut line = String::from("out");
